@@ -17,7 +17,8 @@ META = {
              'attack-graph generation and regeneration for random models, bursts of 300-2500 lookups on one graph (languages with sub-types that declare nothing of their own); the children of every language-graph step are compared with the final steps of the folded expressions; every return value of the resolver is '
              'compared with a reference fold computed on a load-time deep snapshot, and the loaded specification is '
              'deep-compared with the snapshot after every step; non-trivial = the language has a step redefined at '
-             '>= 1 level and the history has >= 2 steps; distinct = digest(spec, history)'),
+             '>= 1 level and the history has >= 2 steps; distinct = digest(spec, history)'
+             '; added strata: bursts of 300-2500 lookups, sub-types that declare nothing, another language with the same names loaded in between, one AttackGraph object re-used for two languages'),
     'assumptions': ['reference fold in mtv/ref_sem.py (Lang.steps)'],
     'shards': {'quick': 8, 'thorough': 16},
     'quotas': {
